@@ -80,6 +80,8 @@ def _named_local(view, op, depth=8):
         if op.get("o") == "const":
             c = op.get("c")
             if c == "lit":
+                if "fv" in op:
+                    return "%g" % float(op["fv"])
                 return str(op.get("sv", op["v"]))
             if c == "param":
                 return op["n"]
